@@ -125,6 +125,10 @@ def run(res, tier):
             su = [(lo, lo + 0x400, 1) for lo in range(0, 0x10000, 0x400)] + [(lo, lo + 0x4000, 16) for lo in range(0x10000, 0x110000, 0x4000)]
         else:
             su = [(lo, lo + 0x80, 1) for lo in range(0, 0x400, 0x80)] + [(lo, min(lo + 0x8000, 0x110000), 211) for lo in range(0x400, 0x110000, 0x8000)]
+            # every format / invisible / separator character (byte order mark, zero-width and directional marks, line and paragraph
+            # separators, interlinear annotation, tags): they are ordinary salt characters
+            su += [(0xAD, 0xAE, 1), (0x600, 0x606, 1), (0x61C, 0x61D, 1), (0x6DD, 0x6DE, 1), (0x180E, 0x180F, 1), (0x2000, 0x2070, 1), (0x3000, 0x3001, 1), (0xFE00, 0xFE10, 1), (0xFEFF, 0xFF00, 1),
+                   (0xFFF0, 0x10000, 1), (0xE0001, 0xE0002, 1), (0xE0020, 0xE0030, 1), (0x1D173, 0x1D17B, 1)]
         for w in pmap(_salt_chars, permuted(su, "c15salt"), chunk=1):
             res.merge_worker(w)
     from ..common import hostile_runs
